@@ -862,6 +862,27 @@ def _d2_d3(ctx):
     esc = Escape(repo, ctx.res)
     lr = repo.func('wpull.robotstxt:RobotsTxtPool.load_robots_txt')
     own = [it for it in esc.escapes(lr) if esc.is_sub(it.type, 'ValueError') and 'wpull/thirdparty/' not in it.origin]
+    # ... in the encoding the parser's URL side uses: the vendored parser decodes *bytes* as ISO-8859-1 but percent-decodes the URL it
+    # is asked about as UTF-8, so a rule path written in raw UTF-8 (RFC 9309) only matches when the text arrives already decoded
+    tp = repo.module('wpull.thirdparty.robotexclusionrulesparser')
+    latin1 = any(isinstance(c, ast.Call) and U.attr_name(c) == 'decode' and c.args and isinstance(c.args[0], ast.Constant)
+                 and str(c.args[0].value).lower().replace('_', '-') in ('iso-8859-1', 'latin-1', 'latin1') for c in ast.walk(tp.tree))
+    if latin1:
+        LENIENT = ('replace', 'ignore', 'surrogateescape', 'backslashreplace')
+        param = lr.params[2] if len(lr.params) > 2 else None
+        dec = [c for c in U.calls(lr.node) if U.attr_name(c) == 'decode' and isinstance(c.func.value, ast.Name) and c.func.value.id == param
+               and c.args and isinstance(c.args[0], ast.Constant) and str(c.args[0].value).lower().replace('_', '').replace('-', '') == 'utf8'
+               and isinstance(U.kwarg(c, 'errors', 1), ast.Constant) and U.kwarg(c, 'errors', 1).value in LENIENT]
+        parses = [c for c in U.calls(lr.node) if U.attr_name(c) == 'parse' and c.args]
+        okd = bool(dec) and bool(parses) and all(isinstance(c.args[0], ast.Name) for c in parses)
+        if okd:
+            defs_ = U.local_defs(lr.node)
+            for c in parses:
+                ds = defs_.get(c.args[0].id, [])
+                okd = okd and (any(v is not None and any(x is d_ for d_ in dec for x in ast.walk(v)) for v, k, s_ in ds))
+        ck.expect(okd, 'C20-D3', lr.qual, 'bytes are decoded as UTF-8 (lenient) before they reach the parser',
+                  'the rules parser receives the response bytes and reads them as ISO-8859-1 while it percent-decodes URLs as UTF-8: '
+                  '`Disallow: /caf\u00e9` in UTF-8 does not cover /caf%C3%A9, which is then requested', lr.loc())
     ck.expect(not own, 'C20-D3', lr.qual, 'nothing between the read and the parser can fail on the bytes of the file',
               'a step before the parser can raise %s on some robots.txt bytes; the checker accepts the file as blank then and every '
               'disallowed URL of that origin is requested' % ', '.join(sorted({'%s (%s)' % (it.type, it.origin) for it in own}))[:300], lr.loc())
